@@ -432,10 +432,33 @@ def _reraise_kind(h):
     return 'maybe'
 
 
+def _is_foreign_dunder_load(fi, n):
+    """`<expr>.__name__`-like read that can raise AttributeError: a special attribute that not every object has, read off something
+    other than the receiver itself / super() / a class or module named in the source"""
+    a = n.attr
+    if not (a.startswith('__') and a.endswith('__')) or a in ('__class__', '__dict__', '__doc__', '__init__', '__new__', '__eq__', '__ne__',
+                                                            '__hash__', '__repr__', '__str__', '__getattribute__', '__setattr__', '__delattr__',
+                                                            '__reduce__', '__reduce_ex__', '__sizeof__', '__subclasshook__', '__init_subclass__',
+                                                            '__format__', '__dir__', '__le__', '__lt__', '__ge__', '__gt__'):
+        return False      # (every object has these)
+    base = n.value
+    if isinstance(base, ast.Call) and isinstance(base.func, ast.Name) and base.func.id in ('super', 'type'):
+        return False
+    if isinstance(base, ast.Name):
+        if fi.cls is not None:
+            a0 = fi.node.args.posonlyargs + fi.node.args.args
+            if a0 and a0[0].arg == base.id:
+                return False       # the receiver: the package's own object
+        if base.id not in local_names(fi.node):
+            return False           # a module / class named in the source
+    return True
+
+
 class Escape(object):
-    def __init__(self, repo, cg=None, interp=None, tag_entries=()):
+    def __init__(self, repo, cg=None, interp=None, tag_entries=(), implicit_attrs=False):
         from .interp import Interp
         self.repo = repo
+        self.implicit_attrs = implicit_attrs
         self.tag_entries = set(tag_entries)
         self.cg = cg or CallGraph(repo)
         self.interp = interp or Interp(repo)
@@ -512,6 +535,9 @@ class Escape(object):
                 items.append(('raise', n, cls))
             elif isinstance(n, ast.Assert):
                 items.append(('raise', n, 'AssertionError'))
+            elif self.implicit_attrs and isinstance(n, ast.Attribute) and isinstance(n.ctx, ast.Load) and _is_foreign_dunder_load(fi, n):
+                # an implicit source: reading a special attribute off an object the package did not build
+                items.append(('implicit', n, 'AttributeError'))
         for cs in self.cg.sites[fi.key]:
             items.append(('call', cs.node, cs))
         return items
@@ -558,6 +584,9 @@ class Escape(object):
                         cls = payload
                         origin = '%s|raise:%s' % (fi.key, raise_key(fi.node, node.exc if isinstance(node, ast.Raise) else node.test, method=fi.cls is not None)[:80])
                         excs = [Exc(cls if cls else '?', origin, node, fi, 'assert' if isinstance(node, ast.Assert) else 'raise')]
+                    elif kind == 'implicit':
+                        origin = '%s|attr:%s' % (fi.key, norm_locals(fi.node, node, method=fi.cls is not None)[:80])
+                        excs = [Exc(payload, origin, node, fi, 'implicit')]
                     else:
                         cs = payload
                         excs = []
